@@ -70,7 +70,7 @@ def parse_out(line):
 class Check(DiffCheck):
     id = 'C07'
     coq_dirs = ['Base', 'E3', 'C07']
-    coq_targets = ['C07/C07_Arith.vo', 'C07/C07_Lists.vo', 'C07/C07_SPSC_Proofs.vo', 'C07/C07_MPMC_Proofs.vo', 'C07/C07_Proofs.vo']
+    coq_targets = ['C07/C07_Arith.vo', 'C07/C07_Lists.vo', 'C07/C07_SPSC_Proofs.vo', 'C07/C07_MPMC_Proofs.vo', 'C07/C07_Chan_Proofs.vo', 'C07/C07_Proofs.vo']
     properties_v = 'C07/C07_Properties.v'
     extract_v = 'C07/C07_Extract.v'
     runner_ml = 'ocaml/C07_run.ml'
@@ -85,7 +85,9 @@ class Check(DiffCheck):
                    'MPMC theorems guard: fewer than 2^64 claims (no index wrap); at the wrap a capacity>=4 MPMC queue stops accepting pushes (note N1)']
     trusted_base = ['E3 controller (harness/E3/e3.h): all shared accesses of the header under test go through std::atomic '
                     '(checked: every schedule is run twice, logs must be identical)']
-    partial_note = ''
+    partial_note = ('proved: SPSC (all) and MPMC CAS+ticket (safety, below the 2^64 wrap). NOT proved in Coq: batch MPMC queue, '
+                    'RingChannel no-lost-wake-up (E3 replay of the real send/recv/notify code over an atomic abstract FIFO + oracle after every step, '
+                    'exhaustive small schedules), MPMC emptiness/fullness reporting. SC only.')
     case_timeout = 900
 
     def build_impl(self):
@@ -336,6 +338,18 @@ class Check(DiffCheck):
             if act and qlen < cap and ssem == 0 and all(blocked[q] == 's' for q in act):
                 return 'LOST WAKE-UP (send side): queue has room, send_sem empty, every participant inside an operation is a sender blocked in send_sem.wait (after log entry %r)' % e
         return None
+
+    def extra(self, ctx):
+        # informational ASan probe for finding C07-F1 (N = 1 template instantiation); never part of the verdict
+        try:
+            exe, log = cxx_build(self.id, ['harness/C07/probe_n1.cpp'], asan=True, out=os.path.join(BUILD, 'bin', 'C07_probe_n1'))
+            if exe:
+                rc, out = sh([exe], timeout=60, env=self.impl_env())
+                self.extra_coverage = dict(probe_mpmc_N1='overflow-free' if 'OVERFLOW-FREE' in out else
+                                           'heap-buffer-overflow on the second push (finding C07-F1, fix: repo_patches/C07-slots-num-n1.diff)')
+        except Exception as e:
+            self.extra_coverage = dict(probe_mpmc_N1='probe failed to run: %s' % str(e)[:200])
+        return []
 
     def neighbours(self, case, rng):
         c = parse_case(case)
